@@ -5,7 +5,7 @@ cd "$(dirname "$0")/.."
 id=$1; chk=$2; seed=${3:-0}; tier=${4:-quick}
 tmp=$(mktemp -d /tmp/pv_runmut_XXXX)
 git -C /repo worktree add -q --detach $tmp/wt HEAD
-git -C $tmp/wt apply "$(pwd)/seeded/$id/patch.diff"
+p="$(pwd)/seeded/$id/patch.diff"; [ -f "$p" ] || p="$(pwd)/benign/$id/patch.diff"; git -C $tmp/wt apply "$p"
 set +e
 PVMON_NO_ALWAYS_ON=1 VERIF_DEBUG=${VERIF_DEBUG:-1} VERIF_SEED=$seed PVMON_REPO_SRC=$tmp/wt/src PVMON_OUT_DIR=$tmp/out ./check $chk --tier $tier
 rc=$?
